@@ -145,6 +145,8 @@ fn fault_name(g: &Ghost, fired: u64) -> &'static str {
 pub enum Place {
     Live(usize, usize), // (model index in view, node index)
     Detached,
+    /// part of the tree of a model that no handle refers to any more
+    Orphan,
     Unknown,
 }
 
@@ -157,7 +159,7 @@ pub fn place_of(view: &View, world: &World, h: H) -> Place {
                     return Place::Live(mi, *i);
                 }
             }
-            Place::Detached
+            if view.orphans.contains(&h) { Place::Orphan } else { Place::Detached }
         }
     }
 }
@@ -229,6 +231,7 @@ pub fn relation(view: &View, world: &World, op: &Op, detached_by: &HashMap<H, K>
         Place::Live(_, 0) => "a=foreign-root".to_string(),
         Place::Live(_, _) => "a=foreign".to_string(),
         Place::Detached => format!("a={}", stale(op.a)),
+        Place::Orphan => "a=orphan".to_string(),
         Place::Unknown => "a=unknown".to_string(),
     };
     match op.k.recv_b() {
@@ -292,6 +295,7 @@ fn relation_ab(view: &View, _world: &World, op: &Op, pa: Place, pb: Place, a_sta
             }
         }
         (_, Place::Detached) => format!("{a_state},b={}", stale(op.b)),
+        (_, Place::Orphan) => format!("{a_state},b=orphan"),
         (Place::Detached, _) => a_state.to_string(),
         _ => "unknown".to_string(),
     }
